@@ -84,9 +84,38 @@ fn observe(args: &[Sexp]) -> Option<Result<Observed, String>> {
     }))
 }
 
+/// The oracle's verdict on one observation: (key, detail) per violated clause.
+fn violations(o: &Observed) -> Vec<(String, String)> {
+    let mut out = vec![];
+    let mut fail = |key: &str, detail: String| out.push((key.to_string(), detail.chars().take(1500).collect::<String>()));
+    if o.direct != o.traced {
+        fail("traced-rows-differ", format!("direct {} rows, traced {} rows", o.direct.len(), o.traced.len()));
+    }
+    match &o.ron_roundtrip {
+        Ok(true) => {}
+        Ok(false) => fail("trace-ron-roundtrip", "deserialised trace != recorded trace".into()),
+        Err(t) => fail("trace-ron-roundtrip", t.clone()),
+    }
+    match &o.json_roundtrip {
+        Ok(true) => {}
+        Ok(false) => fail("trace-json-roundtrip", "deserialised trace != recorded trace".into()),
+        Err(t) => fail("trace-json-roundtrip", t.clone()),
+    }
+    if let (Err(t), true) = (&o.replay_ron, o.ron_roundtrip.is_ok()) {
+        fail("replay-ron-failed", t.clone());
+    }
+    if let (Err(t), true) = (&o.replay_json, o.json_roundtrip.is_ok()) {
+        fail("replay-json-failed", t.clone());
+    }
+    out
+}
+
 #[derive(Default)]
 pub struct C15 {
     stats: RefCell<GenStats>,
+    /// request line → (trace ops, violations), filled by `eval` so that the oracle need not run
+    /// every request a second time (it recomputes whatever is missing)
+    verdicts: RefCell<std::collections::HashMap<String, (usize, Vec<(String, String)>)>>,
     checked: RefCell<(usize, usize)>,
 }
 
@@ -118,10 +147,13 @@ impl Prop for C15 {
         match h {
             "replay-exec" => Some(match observe(args)? {
                 Err(answer) => answer,
-                Ok(o) => match &o.replay_ron {
-                    Ok(()) => rows_to_sexp(&o.direct).to_string(),
-                    Err(_) => "(replay-failed)".to_string(),
-                },
+                Ok(o) => {
+                    self.verdicts.borrow_mut().insert(request.to_string(), (o.trace_ops, violations(&o)));
+                    match &o.replay_ron {
+                        Ok(()) => rows_to_sexp(&o.direct).to_string(),
+                        Err(_) => "(replay-failed)".to_string(),
+                    }
+                }
             }),
             "exec" | "spec-exec" => eval_exec(h, args),
             _ => None,
@@ -140,34 +172,22 @@ impl Prop for C15 {
                 let detail: String = detail.chars().take(1500).collect();
                 fails.push(OracleFailure { key: key.to_string(), detail: format!("{detail} | query: {text}"), requests: vec![e.line.clone()] });
             };
-            let o = match guarded(|| observe(args)) {
-                Ok(Some(Ok(o))) => o,
-                Ok(_) => continue,
-                Err(info) => {
-                    fail("traced-run-panicked", info);
-                    continue;
-                }
+            let cached = self.verdicts.borrow().get(&e.line).cloned();
+            let (n_ops, found) = match cached {
+                Some(v) => v,
+                None => match guarded(|| observe(args)) {
+                    Ok(Some(Ok(o))) => (o.trace_ops, violations(&o)),
+                    Ok(_) => continue,
+                    Err(info) => {
+                        fail("traced-run-panicked", info);
+                        continue;
+                    }
+                },
             };
             runs += 1;
-            ops += o.trace_ops;
-            if o.direct != o.traced {
-                fail("traced-rows-differ", format!("direct {} rows, traced {} rows", o.direct.len(), o.traced.len()));
-            }
-            match &o.ron_roundtrip {
-                Ok(true) => {}
-                Ok(false) => fail("trace-ron-roundtrip", "deserialised trace != recorded trace".into()),
-                Err(t) => fail("trace-ron-roundtrip", t.clone()),
-            }
-            match &o.json_roundtrip {
-                Ok(true) => {}
-                Ok(false) => fail("trace-json-roundtrip", "deserialised trace != recorded trace".into()),
-                Err(t) => fail("trace-json-roundtrip", t.clone()),
-            }
-            if let (Err(t), true) = (&o.replay_ron, o.ron_roundtrip.is_ok()) {
-                fail("replay-ron-failed", t.clone());
-            }
-            if let (Err(t), true) = (&o.replay_json, o.json_roundtrip.is_ok()) {
-                fail("replay-json-failed", t.clone());
+            ops += n_ops;
+            for (key, detail) in found {
+                fail(&key, detail);
             }
         }
         *self.checked.borrow_mut() = (runs, ops);
